@@ -3,16 +3,20 @@
 # is applied to a scratch copy of /repo (never to /repo itself); minisim is built against the copy and
 # the targeted check must report a violation in the quick budget.  The unchanged copy must pass.
 #
-#   tools/selftest.sh [--with-tests] [--tier quick|thorough] [pattern]
+#   tools/selftest.sh [--with-tests] [--cross] [--tier quick|thorough] [pattern]
+#
+# --cross additionally runs the checks of the OTHER properties against each change and prints a CROSS line when
+# one of them alarms (a check should only alarm when its own property is broken).
 #
 # --with-tests additionally confirms that the repository's own test suite still passes with the patch
 # (i.e. the change is one the existing tests cannot see).
 set -u
 HERE="$(cd "$(dirname "${BASH_SOURCE[0]}")/.." && pwd)"
-WITH_TESTS=0; TIER=quick; PATTERN=""
+WITH_TESTS=0; TIER=quick; PATTERN=""; CROSS=0
 while [ $# -gt 0 ]; do
   case "$1" in
     --with-tests) WITH_TESTS=1 ;;
+    --cross) CROSS=1 ;;
     --tier) TIER="$2"; shift ;;
     *) PATTERN="$1" ;;
   esac
@@ -71,6 +75,15 @@ for f in $list; do
       grep HARNESS "$SCRATCH/out" | head -3
     fi
   done
+  cross=""
+  if [ $CROSS = 1 ]; then
+    for p in C13 C14 C15 C16; do
+      case " $props " in *" $p "*) continue ;; esac
+      run_check "$p"; code=$?
+      [ $code = 0 ] || cross="$cross $p(exit $code:$(grep -o 'clause=[a-z_0-9]*' "$SCRATCH/out" | sort -u | tr '\n' ' '))"
+    done
+    [ -n "$cross" ] && echo "CROSS $name also alarms:$cross"
+  fi
   ok=1
   [ -n "$caught" ] || ok=0
   [[ "$caught" == *HARNESS-ERROR* ]] && ok=0
